@@ -11,9 +11,9 @@ BOUNDS = {
              'cmp_equal..cmp_greater_equal, in_range, saturate_cast: all 64 ordered type pairs. gcd/lcm over all pairs of values for (u8,u8) and (i8,i8) (definition and '
              'std::gcd/std::lcm), gcd for (u8,i8), (i8,u8), (u8,u16) with |n| <= 255 (Euclid unwound 15/18); gcd(0, n) and gcd(m, 0) for all 64 ordered type pairs; at every width the slices gcd(x,x), gcd/lcm of (x,0), (0,x), (x,1), (1,x) and '
              '(2^a, 2^b); lcm(x,x) 8-bit only. hton/ntoh: char, int8_t, uint8_t, uint16_t, uint32_t',
-    'thorough': 'as quick, plus: ipow exponent 0..16; pointer midpoint inside a 33-element array; div_sat/idiv int64_t mixed-sign cases (np, pn; 2400 s budget); lcm for (u8,i8), '
-                '(i8,u8), (u8,u16); gcd for (u8,i16), (i8,u16), (i8,i16) with |n| within the range of the first type; lcm(x,x) 16-bit. Outside the bound: gcd/lcm over all pairs for 16-bit x 16-bit and wider (one of the 256 '
-                'high-byte slices of uint16_t gcd: no verdict in 900 s, so the split planned in DESIGN.md is not run), gcd (u16,u8) (no verdict in 400 s), lcm(x,x) for 32/64 bits '
+    'thorough': 'as quick, plus: ipow exponent 0..16 (int64_t: 0..8, z3 gave no verdict in 600 s for 16); pointer midpoint inside a 33-element array; div_sat/idiv int64_t '
+                'mixed-sign cases (np, pn; 2400 s budget, measured 1180-2250 s on a machine with load 45); lcm for (u8,i8), (i8,u8); gcd for (u8,i16), (i8,u16), (i8,i16) with |n| within the range of the first type; lcm(x,x) 16-bit. Outside the bound: gcd/lcm over all pairs for 16-bit x 16-bit and wider (one of the 256 '
+                'high-byte slices of uint16_t gcd: no verdict in 900 s, so the split planned in DESIGN.md is not run), gcd (u16,u8) (no verdict in 400 s), lcm (u8,u16) (no verdict in 1500 s), lcm(x,x) for 32/64 bits '
                 '(no verdict in 1200 s)',
 }
 ASSUMPTIONS = [
@@ -67,7 +67,7 @@ def queries(tier, prop='C14'):
 
     def add(entry, t, unwind, solver=None, budget=120, extra=None):
         n, ty, s, w = t
-        cfg = {'T': ty, 'N': n, 'S': s, 'W': w, 'EMAX': emax}
+        cfg = {'T': ty, 'N': n, 'S': s, 'W': w, 'EMAX': emax if (n != 'i64') else 8}   # int64_t, exponent <= 16: z3 gave no verdict in 600 s
         if not quick:
             cfg['PN'] = 33
         cfg.update(extra or {})
@@ -97,8 +97,9 @@ def queries(tier, prop='C14'):
                         continue
                     add('%s_%s' % (e, sg), t, 4, solver='kissat', budget=2400 if hard else 120)
         # ipow, symbolic base and exponent: two multiplier chains; z3 on the exported VC for 32/64 bits (SAT back ends do not finish)
-        add('ipow', t, emax + 2, solver='minisat' if w < 32 else 'z3', budget=120 if quick else 600)
-        add('ipow_wit', t, emax + 2, solver='minisat' if w < 32 else 'kissat')
+        em = emax if n != 'i64' else 8
+        add('ipow', t, em + 2, solver='minisat' if w < 32 else 'z3', budget=120 if quick else 600)
+        add('ipow_wit', t, em + 2, solver='minisat' if w < 32 else 'kissat')
         for (nu, tyu, su, wu) in TYPES:
             for e in ('cmp', 'in_range', 'sat_cast', 'gcd_zero'):
                 add('%s_%s' % (e, nu), t, 5)
@@ -117,7 +118,6 @@ def queries(tier, prop='C14'):
     if not quick:
         for tn, un in (('u8', 'i16'), ('i8', 'u16'), ('i8', 'i16')):
             pair('gcd', tn, un, 18, budget=900)
-        pair('lcm', 'u8', 'u16', 18, budget=1500)
     add('byte_order8', TYPES[0], 4)
     add('byte_order16', TYPES[0], 4)
     add('byte_order32', TYPES[0], 6)
